@@ -326,6 +326,11 @@ pub fn matmul_blocked(
     let m = if transpose_a { cols_a } else { rows_a };
     let l = if transpose_a { rows_a } else { cols_a };
     let n = if transpose_b { rows_b } else { cols_b };
+    assert_eq!(
+        l,
+        if transpose_b { cols_b } else { rows_b },
+        "matrix shapes not compatible"
+    );
 
     let mut c = vec![0.; m * n];
 
@@ -434,6 +439,11 @@ pub fn matmul(
         let m = if transpose_a { cols_a } else { rows_a };
         let l = if transpose_a { rows_a } else { cols_a };
         let n = if transpose_b { rows_b } else { cols_b };
+        assert_eq!(
+            l,
+            if transpose_b { cols_b } else { rows_b },
+            "matrix shapes not compatible"
+        );
 
         let mut c = vec![0.; m * n];
 
